@@ -1599,6 +1599,7 @@ class Collection(object):
         if session:
             raise_not_implemented('session', 'Mongomock does not handle sessions yet')
         self._store.indexes = {}
+        self._store._ttl_indexes = {}
 
     if helpers.PYMONGO_VERSION < version.parse('4.0'):
         def reindex(self, session=None):
